@@ -119,6 +119,9 @@ fn trace_conformance(acc: &mut Acc, bc: &Bytecode, origin: &str) {
         acc.trace_skipped += 1;
         return;
     };
+    // no state hashing here: the default schedule is followed once, and fingerprinting would
+    // Debug-format every value after every action (a top-level `[x: ~] ^` nests without bound)
+    sys.fingerprints = false;
     let mut n = 0;
     loop {
         let alts = sim::explore::alternatives(&sys);
@@ -185,6 +188,9 @@ fn trace_conformance(acc: &mut Acc, bc: &Bytecode, origin: &str) {
 fn handle_source(src: &corpus::Source, do_trace: bool) -> Acc {
     let mut acc = Acc::default();
     sim::system::install_panic_recorder();
+    if std::env::var("VERIF_TRACE_SOURCES").is_ok() {
+        eprintln!("SOURCE {} :: {:?}", src.origin, src.text);
+    }
     let builtins = if src.needs_io {
         qcompile::io_builtins()
     } else {
